@@ -198,7 +198,7 @@ def build(ctx):
                        "16 (numInGroup, blockLength) pairs as generated by sbeppc for schemas/vs_dims.xml; nested groups for the 4 diagonal pairs"]
     sch, inc = hgen.gen_headers(ctx, "vs_dims.xml")
     pairs = [(n, b) for n in U for b in U]
-    for std in hgen.stds(ctx, quick=("17",), thorough=("11", "14", "17", "20", "2b")):
+    for std in hgen.stds(ctx, quick=("17",), thorough=("11", "14", "17", "20")):
         for mode in (["checked"] if ctx.quick else ["checked", "unchecked"]):
             for j in range(0, 16, 4):
                 chunk = pairs[j:j + 4]
